@@ -2,7 +2,9 @@
 
 Pipeline:
  (A) tools/gen/loop.py regenerates Gen/Loop.lean from ev.c / gc.c / os.c: the janet_loop_done expression, every site that
-     increments / decrements listener_count, every janet_gcroot / janet_gcunroot made by an event-loop operation.
+     increments / decrements listener_count, every janet_gcroot / janet_gcunroot made by an event-loop operation;
+     tools/gen/fds.py regenerates Gen/Fds.lean from ev.c / net.c / os.c / io.c / filewatch.c: every descriptor-creating /
+     -closing / -wrapping call site and every call that can raise inside a function that creates descriptors.
  (B,C) kernel re-checks Props/C20 (counter invariant by induction over all transition sequences, no_premature_exit,
      no_hang_when_idle, stale timers, roots_balanced) + axiom audit.
  (D) correspondence: the wrapper-TU harness (harness/C20/c20loop.c, ASan) logs every semantic bookkeeping transition of the
@@ -25,6 +27,7 @@ from vlib.core import run_cmd, VERIF
 from vlib.build import BuildError
 
 from tools.gen import loop as gen_loop
+from tools.gen import fds as gen_fds
 from tools.gen.csrc import ExtractError
 
 sys.path.insert(0, os.path.join(VERIF, "harness", "C20"))
@@ -37,7 +40,11 @@ THEOREMS = ["JanetModel.Props.C20." + t for t in (
     "step_inv", "run_inv", "loop1_inv", "janetLoop_inv", "janetLoop_exit_nothing_outstanding", "listener_count_inv", "no_premature_exit", "no_hang_when_idle", "loopDone_iff_idle",
     "null_event_keeps_loop_alive", "nullStuck_zero", "loopDone_iff_idle_fixed", "collected_suspended_task_keeps_count",
     "dropStale_all_stale", "dropStale_head_live", "dropStale_sublist", "stale_timers_cannot_keep_loop_alive", "pollPrelude_counters",
-    "roots_balanced", "tchanLeaked_zero", "roots_balanced_released", "tchan_root_never_released", "gc_listener_leaves_stream_root")]
+    "roots_balanced", "tchanLeaked_zero", "roots_balanced_released", "tchan_root_never_released", "gc_listener_leaves_stream_root",
+    # descriptors (session 3): site table = model, ownership invariant, every C function balanced for all inputs, fds_balanced
+    "fd_sites_match", "fd_cfg_match", "os_execute_no_leak", "net_listen_no_leak", "fd_op_ok", "fd_exec_inv", "fds_balanced",
+    "fds_cycle_restores", "fds_from_start", "spawn_arg_error_leaks", "spawn_stdio_fail_leaks", "fopen_bad_size_leaks",
+    "connect_fail_double_close", "os_execute_check_detects")]
 
 ENV = dict(os.environ, ASAN_OPTIONS="detect_leaks=0:abort_on_error=0", UBSAN_OPTIONS="print_stacktrace=1")
 SCRATCH = "/var/tmp/janet-verif-c20"
@@ -289,9 +296,11 @@ def run(ctx):
         ctx.build.boot()
         ctx.gen("Loop.lean", gen_loop.render(ctx.build.tree))
         gen_facts = gen_loop.extract(ctx.build.tree)
+        ctx.gen("Fds.lean", gen_fds.render(ctx.build.tree))
+        fd_facts = gen_fds.extract(ctx.build.tree)
     except ExtractError as e:
-        gen_facts = None
-        broken.append("translator tools/gen/loop.py: %s" % e)
+        gen_facts = fd_facts = None
+        broken.append("translator tools/gen/loop.py / fds.py: %s" % e)
         ctx.broken.append(broken[-1])
     except BuildError as e:
         ctx.violation("build-failed", {"kind": "build", "error": str(e)[-3000:]}, found=False, what="tree does not build")
@@ -438,6 +447,8 @@ def run(ctx):
         "mixes": len(mixes), "mix_steps": total_steps, "mix_task_kinds": kinds_hit,
         "correspondence_events": corr_events, "correspondence_steps_compared": corr_snaps, "correspondence_mixes_differing": len(corr_diffs),
         "generated": {"tchan_unroot": gen_facts["tchan_unroot"], "close_notifies_both": gen_facts["close_notifies_both"],
+                      "fd_sites": dict((k, sum(1 for x in fd_facts["fd"] if x[2] == k)) for k in ("create", "close", "wrap", "raise")) if fd_facts else None,
+                      "child_sites": len(fd_facts["child"]) if fd_facts else None, "thread_sites": len(fd_facts["thread"]) if fd_facts else None,
                       "selfpipe_dec_needs_cb": gen_facts["selfpipe_dec_needs_cb"], "proc_gc_wait_options": gen_facts["proc_gc_wait_options"], "counter_sites": len(gen_facts["counter"]), "root_sites": len(gen_facts["roots"])} if gen_facts else None,
     }
     return ctx.finish("proof", cov, assumptions=[
